@@ -7,8 +7,9 @@ Abstraction of the sums (the engine does not unfold sum() over symbolic collecti
                                                     running on instance i"), see assumed contract GetLoad
   NL(m) = Context.ghost_node_load[m]                what get_nodes_load()[m] returns ("sum over the set of the identifiers
                                                     of machine m of L(i)"), see assumed contract GetNodesLoad
-  NR(m) = result of get_node_load_request_map       per machine sum of the pending requests; only its domain and its
-                                                    exception-safety are proved (loop invariant), the sum is opaque
+  NR(m) = result of get_node_load_request_map       per machine SUM of the pending requests of all the identifiers of the
+                                                    machine: setsum over the keys of the request map, PROVED by a loop
+                                                    invariant (the engine knows the recursive definition of a finite sum)
 Everything else (validity predicate, candidate filtering, choice of the optimum, dispatch) is proved on the real code.
 """
 from pyvc.spec import *
@@ -289,10 +290,21 @@ class LocalChoice:
 
 # --------------------------------------------------------------------------------------------------------------------
 # dispatch and the module-level entry points
-def node_requests(load_request_map, m):
-    """NR(m): 'the starts already requested there' = per machine sum of the pending requests of its instances.
-    Abstract (ghost attached to the request map): the summation loop of get_node_load_request_map is not unfolded."""
-    return gmap(load_request_map, 'node_requests', m)
+def request_machine(mapper, i):
+    """machine id of the instance i as get_node_load_request_map reads it"""
+    return mapper._instances[i].local_view.machine_id
+
+
+def requests_of(mapper, load_request_map, keys, m):
+    """sum of the pending requests of the identifiers of `keys` that belong to machine m (setsum: the engine only knows
+    the recursive definition of a finite sum - empty set 0, one more member adds its weight)"""
+    return setsum(keys, lambda i: load_request_map[i] if request_machine(mapper, i) == m else 0)
+
+
+def node_requests(mapper, load_request_map, m):
+    """NR(m): 'the starts already requested there' = per machine, the SUM of the pending requests of ALL its instances
+    (several instances of one node accumulate)"""
+    return requests_of(mapper, load_request_map, load_request_map, m)
 
 
 def mapper_knows(supvisors, i):
@@ -338,15 +350,21 @@ class GetNodesLoad:
 
 @contract('strategy:get_node_load_request_map', props=['C14', 'C04'])
 class GetNodeLoadRequestMap:
-    """ASSUMED abstraction: per machine, the sum of the pending requests of its identifiers (NR(m), see node_requests);
-    the summation loop is not unfolded.  The precondition (every requested identifier is identified and its machine is a
-    key of mapper.nodes - otherwise the loop raises KeyError) is proved at every call site."""
-    assumed = True
+    """C14: 'loads include starts already requested', C04: 'node load - ... plus the starts already requested there':
+    the result maps every machine id of mapper.nodes to the SUM of the requests of ALL the identifiers of that machine
+    (NR(m), see node_requests).  VERIFIED with a loop invariant over the set `seen` of the identifiers already handled:
+    every entry is the sum over the seen identifiers of its machine (so `=` instead of `+=`, a wrong key or a dropped
+    request is refuted).  The precondition (every requested identifier is identified and its machine is a key of
+    mapper.nodes - otherwise the loop raises KeyError) is proved at every call site."""
     raises = ()
     returns = 'Dict[str, int]'
 
     def modifies():
         return []
+
+    def pre_graph(mapper):
+        """call sites pass supvisors.mapper, whose back pointer is that Supvisors object (graph_wf)"""
+        return mapper.supvisors.mapper is mapper
 
     def pre_requested_known(mapper, load_request_map):
         return forall(load_request_map, lambda i: mapper_knows(mapper.supvisors, i))
@@ -354,11 +372,20 @@ class GetNodeLoadRequestMap:
     def post_domain(mapper, result):
         return forall(str, lambda m: (m in result) == (m in mapper.nodes))
 
-    def post_values(load_request_map, result):
-        return forall(result, lambda m: result[m] == node_requests(load_request_map, m))
+    def post_values(mapper, load_request_map, result):
+        return forall(result, lambda m: result[m] == node_requests(mapper, load_request_map, m))
 
     def post_fresh(result):
         return was_fresh(result)
+
+    def loop0_inv(mapper, load_request_map, node_load_request_map, seen):
+        return (was_fresh(node_load_request_map)
+                and forall(str, lambda m: (m in node_load_request_map) == (m in mapper.nodes))
+                and forall(node_load_request_map, lambda m: node_load_request_map[m]
+                           == requests_of(mapper, load_request_map, seen, m)))
+
+    def loop0_modifies(node_load_request_map):
+        return [contents(node_load_request_map)]
 
 
 @contract('strategy:create_strategy', props=['C14'])
@@ -396,7 +423,7 @@ def node_load_abs(supvisors, lrm, i):
     """C04: 'the expected_loading of everything running on that node plus the starts already requested there' (machines
     unknown to mapper.nodes count for 0, as .get(machine_id, 0) does)"""
     m = machine_of(supvisors, i)
-    return (supvisors.context.ghost_node_load[m] + node_requests(lrm, m)) if m in supvisors.mapper.nodes else 0
+    return (supvisors.context.ghost_node_load[m] + node_requests(supvisors.mapper, lrm, m)) if m in supvisors.mapper.nodes else 0
 
 
 def instance_load_abs(supvisors, lrm, i):
